@@ -55,6 +55,19 @@ Theorem C12_stopped_learn_ends_there : forall m n_envs total stop lens num,
 Proof. exact (fun m n_envs total stop lens num => conj (loop_stopped m n_envs total stop lens num) (fun H => loop_never_stopped m n_envs total stop H lens num)). Qed.
 Print Assumptions C12_stopped_learn_ends_there.
 
+(* a callback stop: every train() of the call happened strictly before the count at which learn() stopped - none at or after it;
+   the loops of learn() break exactly when the rollout was stopped (regenerated tests) *)
+Theorem C12_no_train_at_or_after_stop : forall m n_envs total stop, 0 < n_envs -> forall lens num,
+  Forall (fun s => (1 <= s)%nat) lens ->
+  let r := loop m n_envs total stop lens num in
+  snd r = true -> Forall (fun e => fst e < snd (fst r)) (fst (fst r)).
+Proof. exact no_train_at_or_after_stop. Qed.
+Print Assumptions C12_no_train_at_or_after_stop.
+
+Theorem C12_frag_breaks : forall c, on_break_after_stop c = negb c /\ off_break_after_stop c = negb c /\ ppo_epoch_break c = negb c.
+Proof. exact frag_breaks. Qed.
+Print Assumptions C12_frag_breaks.
+
 (* equal rollouts of R timesteps, no stop: learn() ends at the FIRST rollout boundary at or after the
    target (total <= final < total + R, final - start a multiple of R); on-policy: one train() per rollout *)
 Theorem C12_stop_at_first_boundary : forall m n_envs total stop s, (forall n, stop n = false) ->
@@ -127,6 +140,27 @@ Theorem C12_ppo_truncated_minibatch_law : forall n_envs n_steps batch n_epochs, 
 Proof. exact ppo_truncated_minibatch_law. Qed.
 Print Assumptions C12_ppo_truncated_minibatch_law.
 
+(* PPO.train's loops (model ppo_train: epochs x minibatches, early stop by target_kl = oracle kl): n_epochs * k optimizer steps and
+   n_epochs increments of _n_updates without early stop, never more with it; the loop bounds, the early-stop test and the break are the
+   regenerated ones; k = number of minibatches of get(batch_size) = ceil(N / batch) and n_epochs * k = on_train_steps *)
+Theorem C12_ppo_train_steps : forall n_epochs k kl,
+  ((forall e j, kl e j = false) -> ppo_train n_epochs k kl = ((n_epochs * k)%nat, n_epochs)) /\
+  (fst (ppo_train n_epochs k kl) <= n_epochs * k)%nat /\ (snd (ppo_train n_epochs k kl) <= n_epochs)%nat.
+Proof. exact ppo_train_steps. Qed.
+Print Assumptions C12_ppo_train_steps.
+
+Theorem C12_frag_ppo_train : forall n_epochs batch hk a t n,
+  ppo_epoch_range n_epochs = n_epochs /\ ppo_epoch_iter = 1 /\ ppo_get_batch batch = batch /\ a2c_get_batch = 1 /\
+  ppo_kl_stop hk a t = (hk && negb (Qle_bool a ((3 # 2) * t))) /\ ppo_kl_sets_continue = false /\ ppo_continue_init = true /\
+  ppo_n_updates n = n + 1 /\ a2c_n_updates n = n + 1.
+Proof. exact frag_ppo_train. Qed.
+Print Assumptions C12_frag_ppo_train.
+
+Theorem C12_ppo_train_is_on_train_steps : forall n_epochs N b, (1 <= b)%nat ->
+  Z.of_nat (n_epochs * length (minibatches b (seq 0 N))) = on_train_steps (Z.of_nat n_epochs) (Z.of_nat N) (Z.of_nat b).
+Proof. exact ppo_train_is_on_train_steps. Qed.
+Print Assumptions C12_ppo_train_is_on_train_steps.
+
 (* gradient_steps = -1: train() after a rollout of s vectorised steps gets s * n_envs gradient steps *)
 Theorem C12_gradient_steps_minus_one : forall ls gs num' s n_envs, gs < 0 ->
   train_event (OffPolicy ls gs) num' (Z.of_nat s * n_envs) =
@@ -167,3 +201,11 @@ Proof. reflexivity. Qed.
 
 Example C12_ex_minibatches : length (minibatches 4 (seq 0 10)) = 3%nat /\ on_train_steps 2 10 4 = 6 /\ ppo_truncated_warning 10 4 = true.
 Proof. repeat split; reflexivity. Qed.
+
+Example C12_ex_ppo_train :
+  ppo_train 3 4 (fun _ _ => false) = (12%nat, 3%nat) /\ ppo_train 3 4 (fun e j => (e =? 1)%nat && (j =? 2)%nat) = (6%nat, 2%nat).
+Proof. split; reflexivity. Qed.
+Example C12_ex_linear_and_mid_rollout_stop :
+  (linear_fn (19 # 20) 1 (1 # 20) (1 # 10) == 21 # 40)%Q /\
+  loop OnPolicy 2 40 (fun n => n =? 14) (repeat 4%nat 9) 0 = ([(8, 0)], 14, true).
+Proof. split; reflexivity. Qed.
